@@ -41,6 +41,12 @@ def cases(chk):
             yield "roundtrip", {"len": n, "kind": kind, "key": keys[n % 3] if n > 16 else keys[0], "seed": n}
     for n in ([100000] if chk.quick() else [65535, 65536, 1000000, 1048576]):
         yield "roundtrip", {"len": n, "kind": r.choice(KINDS), "key": keys[1], "seed": n}
+    # plaintexts that END like padding: the last k bytes equal the pad value this length gets (16 - n % 16), or another valid pad value —
+    # an unpadder that looks at the content instead of the count shortens exactly these
+    for n in list(range(1, 50)) + [63, 64, 65, 255, 256, 4095, 4096]:
+        own = 16 - n % 16
+        for pv, k in ((own, 1), (own, min(n, own)), (own, min(n, own + 3)), (1, min(n, 2)), (16, min(n, 16)), (own % 16 + 1, 1)):
+            yield "roundtrip", {"len": n, "kind": KINDS[(n + k) % len(KINDS)], "key": keys[n % 3], "seed": n, "tail": [pv, k]}
     # sizes whose padded ciphertext ends at, just before or just after a power of two / an integer constant of the current source
     # (chunked processing): plaintext lengths b-17, b-16, b-1, b, b+1 for every such b
     from lib.probes import harvest_ints
@@ -79,8 +85,13 @@ def _plain(case):
     rr = random.Random(case["seed"])
     n = case["len"]
     if n <= 4096:
-        return bytes(rr.randrange(256) for _ in range(n))
-    return bytes([rr.randrange(256)]) * n
+        data = bytes(rr.randrange(256) for _ in range(n))
+    else:
+        data = bytes([rr.randrange(256)]) * n
+    if case.get("tail"):
+        pv, k = case["tail"]
+        data = data[:n - k] + bytes([pv]) * k
+    return data
 
 
 def run_case(chk, stream, case):
